@@ -1335,6 +1335,8 @@ class CalgaryCampinasMaskFunc(BaseMaskFunc):
             If the download fails.
         """
         masks_path = DIRECT_CACHE_DIR / "calgary_campinas_masks"
+        # Accelerations coming from the typed configuration are floats (5.0, 10.0); the mask files are named R5_ / R10_.
+        acceleration = int(acceleration)
         paths = [
             f"R{acceleration}_218x170.npy",
             f"R{acceleration}_218x174.npy",
